@@ -1,7 +1,7 @@
 #![allow(dead_code)]
 // Catalogue of derive(BinaryCodec) declarations (DESIGN 5/C02): every shape x attribute the
 // properties name.  Expanded with the real macro on every run; never compiled into anything else.
-use desert::BinaryCodec;
+use desert::{BinaryCodec, DeduplicatedString};
 
 #[derive(BinaryCodec)]
 pub struct S0Plain {
@@ -77,4 +77,13 @@ pub enum E0TransientField {
         b: u8,
     },
     Last,
+}
+
+// known finding D12: removed-field names in the header are deduplicated strings written after
+// the fields but positioned before them
+#[derive(BinaryCodec)]
+#[evolution(FieldAdded("s2", DeduplicatedString(String::new())), FieldRemoved("gone"))]
+pub struct S2DedupRemoved {
+    pub s1: DeduplicatedString,
+    pub s2: DeduplicatedString,
 }
